@@ -1445,6 +1445,46 @@ def rule_stat_routes(ctx, rid):
                 bad = (e, 'isinstance is asked whether a type is an instance of the values (arguments swapped): TypeError for '
                        'every input')
                 break
+            lst = v[2][0] if v[0] == 'call' and v[1] in ('numpy.array', 'numpy.asarray') and v[2] and not v[3] else None
+            if kind == 'slice' and lst is not None and lst[0] == 's' and '@F' in lst[1] and lst[1].endswith('post'):
+                # a list filled by exactly one append per iteration over the slices
+                name_l = lst[1].split('@')[0]
+                fors = [ls for ls in e.state.loops if ls.kind == 'for']
+                if len(fors) != 1 or fors[0].iter_term != S('slices'):
+                    ctx.undecided(rid, fi, c, 'list built in %d loops over %s' % (len(fors), show(fors[0].iter_term)[:40] if fors else '-'))
+                    return
+                ls = fors[0]
+                extent = ls.var
+                for knd, b in ls.body_states:
+                    n += 1
+                    apps = [f for f in b.effects if f[0] == 'mutcall' and f[1] == 'append' and f[5] == name_l]
+                    noext = None
+                    for cd, tr, ln in b.conds:
+                        r = _is_none_test(cd, extent)
+                        if r is not None:
+                            noext = (r == tr)
+                    if len(apps) != 1 or len(apps[0][3]) != 1:
+                        bad = (e, 'a path through the loop appends %d values for one cycle' % len(apps))
+                        break
+                    val = apps[0][3][0]
+                    if noext:
+                        if not _is_nan(val):
+                            bad = (e, 'a cycle without extent gets %s instead of NaN' % show(val)[:40])
+                            break
+                        continue
+                    if noext is None:
+                        bad = (e, 'the values are sliced without testing whether the cycle has a slice')
+                        break
+                    if _is_nan(val):
+                        bad = (e, 'a cycle with samples gets NaN')
+                        break
+                    msg = _func_of_extent(val, vals_t, extent, _tuple_route(b.conds, vals_t))
+                    if msg:
+                        bad = (e, msg)
+                        break
+                if bad:
+                    break
+                continue
             if v[0] == 's' and '@F' in v[1] and v[1].endswith('post'):
                 out = v[1].split('@')[0]
                 fors = [ls for ls in e.state.loops if ls.kind == 'for']
